@@ -21,7 +21,9 @@ pub struct Received {
 
 pub struct Lsp {
     child: Child,
-    input: Option<ChildStdin>,
+    /// messages go to a writer thread: a server that has stopped reading its input must not block the monitor (a
+    /// document of a few megabytes does not fit into the pipe), it has to run into the monitor's own silence bound
+    input: Option<std::sync::mpsc::Sender<Vec<u8>>>,
     incoming: Receiver<Received>,
     clock: Arc<AtomicU64>,
     next_id: u64,
@@ -47,7 +49,16 @@ impl Lsp {
             | None => Stdio::null(),
         };
         let mut child = Command::new(binary).env("RUST_BACKTRACE", "0").stdin(Stdio::piped()).stdout(Stdio::piped()).stderr(stderr).spawn()?;
-        let input = child.stdin.take();
+        let mut stdin: ChildStdin = child.stdin.take().expect("piped stdin");
+        let (input_tx, input_rx) = channel::<Vec<u8>>();
+        std::thread::spawn(move || {
+            for bytes in input_rx {
+                if stdin.write_all(&bytes).is_err() || stdin.flush().is_err() {
+                    return;
+                }
+            }
+        });
+        let input = Some(input_tx);
         let output = child.stdout.take().expect("piped stdout");
         let clock = Arc::new(AtomicU64::new(1));
         let (tx, rx) = channel();
@@ -86,8 +97,10 @@ impl Lsp {
 
     fn write(&mut self, message: &Value) -> bool {
         let body = serde_json::to_vec(message).unwrap_or_default();
-        let Some(input) = self.input.as_mut() else { return false };
-        input.write_all(format!("Content-Length: {}\r\n\r\n", body.len()).as_bytes()).is_ok() && input.write_all(&body).is_ok() && input.flush().is_ok()
+        let Some(input) = self.input.as_ref() else { return false };
+        let mut bytes = format!("Content-Length: {}\r\n\r\n", body.len()).into_bytes();
+        bytes.extend_from_slice(&body);
+        input.send(bytes).is_ok()
     }
 
     fn describe(params: &Value) -> (String, i64) {
